@@ -115,4 +115,6 @@ def model_value(model, term):
         return True
     if z3.is_false(v):
         return False
+    if z3.is_string_value(v):
+        return {'string': v.as_string()}
     return str(v)
